@@ -7,12 +7,33 @@ from vf.core import Suite, coq_hex, coq_list, coq_bool, coq_N
 from vf.gen import pick_weighted
 
 ID = "C49"
-THEOREMS = []
+THEOREMS = ["C49_dowild_total", "C49_dowild_sound_complete", "C49_dowild_codes", "C49_dowild_eq_git",
+            "C49_last_match_wins", "C49_decision_unique", "C49_excluded_parent", "C49_eq_git_refuted"]
 MODEL_FILES = ["Gitignore.v"]
-MODELLED = ""
-TRUSTED = []
-ASSUMPTIONS = []
-RULE = ""
+MODELLED = ("plumbing/format/gitignore: pattern.go ParsePattern, pattern.Match, simpleNameMatch, globMatch, wildmatch, dowild "
+            "(all flags, abort codes, bracket loop, matchPOSIXClass), matcher.go matcher.Match, scope.go NewScope/Descend/Match/"
+            "RootPatterns/DirPatterns, dir.go readIgnoreFile (Model/Gitignore.v); spec: git 2.39.5 dir.c (add_patterns_from_buffer, "
+            "trim_trailing_spaces, parse_path_pattern, match_basename, match_pathname, last_matching_pattern, prep_exclude) and "
+            "wildmatch.c (Spec/GitIgnore.v), declarative glob semantics (Spec/Glob.v); not modelled: billy filesystem access, "
+            "bufio.Scanner's 64 KiB line limit, the multi-byte Unicode spaces of strings.TrimSpace, the deprecated flat "
+            "ReadPatterns/Matcher walk, LoadGlobalPatterns/LoadSystemPatterns (config lookup), core.ignorecase")
+TRUSTED = [
+    "C-impl: harness/cmd/c49 (gitignore.VerifDowild / VerifPatternFields hooks, -tags verif; the Scope walk of utils/merkletrie/filesystem "
+    "re-enacted over memfs) vs Model/Gitignore on every case",
+    "C-git: Spec/GitIgnore.git_ignored vs `git check-ignore --no-index -v -n -z --stdin` (git 2.39.5) on the cases of every run "
+    "(spec_mismatches in the evidence must be 0)",
+    "the direct oracle: the implementation's verdict vs the same git invocation in a scratch repository that holds the ignore files and the paths",
+]
+ASSUMPTIONS = ["git 2.39.5 at /usr/bin/git is the reference (its literal-prefix handling of `foo**/bar` differs from git >= 2.52)",
+               "patterns, paths and ignore files are NUL-free; path components are non-empty and contain no slash",
+               "core.ignorecase is false (the matcher is case-sensitive; go-git exposes no case folding)"]
+RULE = ("case = a small directory tree, ignore files at the root / in sub-directories / info/exclude made of pattern lines derived "
+        "from the tree's names (wildcards, brackets, escapes, ** forms, negation, dir-only, leading/trailing/doubled slashes, trailing "
+        "blanks, comments, CRLF, BOM), queried for every node of the tree; plus (pattern, text) pairs for dowild and (line, domain, path) "
+        "triples for ParsePattern/Match; non-trivial = some ignore file has a pattern line / the pattern has a glob-special byte; distinct by content")
+LEVEL_NOTE = ("trusted: Coq 8.16.1 kernel; the correspondence harness; S is a transcription of git 2.39.5 validated against the binary on every run. "
+              "Theorems: dowild total; dowild (flags 0) sound and complete for a declarative glob semantics on the fragment literal/?/*/**/escapes/"
+              "simple bracket sets, and equal to git's dowild there; last-match-wins; excluded parent; go-git = git refuted with witnesses")
 
 # ---------------------------------------------------------------- generators
 
@@ -445,9 +466,9 @@ class Ignore(Suite):
     name = "main"
     go_cmd = "c49"
     coq_imports = "From GoGit Require Import Model.Gitignore Spec.GitIgnore."
-    quick_n = 350
-    thorough_n = 5000
-    coq_chunk = 120
+    quick_n = 260
+    thorough_n = 4000
+    coq_chunk = 70
 
     def gen(self, rng, n, tier):
         cases = []
@@ -522,7 +543,7 @@ class Ignore(Suite):
     def extra(self, ctx, cases, impl, model):
         # C-git: S (Spec/GitIgnore.git_ignored) vs the git binary on the same cases
         git = self.git_all(ctx, cases)
-        sub = cases[:400] if ctx.tier == "quick" else cases
+        sub = cases[:300] if ctx.tier == "quick" else cases[:2000]
         outs = ctx.coq_eval(self.coq_imports, ["c49_git_ignore " + coq_case_args(c) for c in sub], chunk=self.coq_chunk)
         bad = n = 0
         for c, o in zip(sub, outs):
@@ -546,4 +567,238 @@ class Ignore(Suite):
         return d
 
 
-SUITES = [Ignore()]
+
+# ---------------------------------------------------------------- dowild suite
+
+WALPHA = b"ab*?[]\\!-^c.:"
+
+
+def gen_glob_fragment(rng):
+    """a pattern of the proved fragment"""
+    out = b""
+    for _ in range(rng.randrange(0, 7)):
+        k = rng.randrange(10)
+        if k < 4:
+            out += rng.choice([b"a", b"b", b"c", b".", b"x", b"!", b"^", b":"])
+        elif k == 4:
+            out += b"?"
+        elif k in (5, 6):
+            out += rng.choice([b"*", b"*", b"**", b"***"])
+        elif k == 7:
+            out += b"\\" + rng.choice([b"a", b"*", b"?", b"[", b"\\", b"]", b"-", b"b"])
+        else:
+            neg = rng.choice([b"", b"", b"!", b"^"])
+            els = b""
+            for _ in range(rng.randrange(1, 4)):
+                if rng.random() < 0.4:
+                    els += rng.choice([b"a-c", b"b-b", b"c-a", b"a-z", b"0-9", b"!-/"])
+                else:
+                    els += rng.choice([b"a", b"b", b"c", b"x", b".", b"*", b"?", b"!", b"^", b":"])
+            out += b"[" + neg + els + b"]"
+    return out
+
+
+def gen_text_for(rng, p):
+    """a text that has a fair chance to match p"""
+    out = b""
+    i = 0
+    while i < len(p):
+        c = p[i:i + 1]
+        if c == b"\\" and i + 1 < len(p):
+            out += p[i + 1:i + 2]
+            i += 2
+            continue
+        if c == b"*":
+            out += bytes(rng.choice(b"abc.x") for _ in range(rng.randrange(0, 3)))
+        elif c == b"?":
+            out += bytes([rng.choice(b"abcx.")])
+        elif c == b"[":
+            j = p.find(b"]", i + 2)
+            if j < 0:
+                j = len(p) - 1
+            out += bytes([rng.choice(b"abcx.!" + p[i + 1:j].replace(b"-", b"").replace(b"\\", b"") + b"a")])
+            i = j
+        else:
+            out += c
+        i += 1
+    if rng.random() < 0.3 and out:
+        k = rng.randrange(len(out))
+        out = out[:k] + bytes([rng.choice(b"abcx")]) + out[k + (rng.random() < 0.5):]
+    return out
+
+
+WILD_FIXED = [
+    (b"*a*a*a*b", b"aaaaaaaaaaaaaaaa"), (b"*a*b*c", b"abababababc"), (b"a*b", b"ab"), (b"a*b", b"a"), (b"*", b""), (b"**", b"abc"),
+    (b"", b""), (b"", b"a"), (b"a", b""), (b"?", b""), (b"\\", b"\\"), (b"a\\", b"a"), (b"[", b"["), (b"[a", b"a"), (b"[]", b"]"),
+    (b"[]]", b"]"), (b"[]a]", b"a"), (b"[!]", b"!"), (b"[!]a]", b"b"), (b"[a-]", b"-"), (b"[-a]", b"-"), (b"[a-c-e]", b"-"), (b"[a-c-e]", b"d"),
+    (b"[\\]]", b"]"), (b"[\\a-c]", b"b"), (b"[a-\\c]", b"b"), (b"[[:alpha:]]", b"a"), (b"[[:alpha:]]", b"1"), (b"[[:digit:][:upper:]]", b"A"),
+    (b"[[:foo:]]", b"a"), (b"[[:]", b":"), (b"[[:]", b"["), (b"[[:a]", b"["), (b"[[:alpha]", b"a"), (b"[[:alpha:]", b"a"), (b"[[:space:]]", b" "),
+    (b"[[:punct:]]", b"!"), (b"[[:xdigit:]]", b"f"), (b"[[:xdigit:]]", b"g"), (b"[[:cntrl:]]", b"\x01"), (b"[[:graph:]]", b" "), (b"[[:print:]]", b" "),
+    (b"[[:lower:]]", b"a"), (b"[[:upper:]]", b"a"), (b"[[:blank:]]", b"\t"), (b"[[:alnum:]]", b"_"), (b"[^a]", b"b"), (b"[^a]", b"a"),
+    (b"[a-c]*x", b"bxx"), (b"*[a-c]", b"xxb"), (b"*?", b"a"), (b"*?", b""), (b"?*?", b"ab"), (b"*\\*", b"a*"), (b"*\\?b", b"a?b"),
+    (b"[z-a]", b"z"), (b"[z-a]", b"m"), (b"a[b", b"ab"), (b"a]b", b"a]b"), (b"[a-c][!a-c]", b"ad"), (b"\xc3\xa9", b"\xc3\xa9"), (b"[\xc3\xa9]", b"\xa9"),
+    (b"[[:alpha:]]", b"\xe9"), (b"*a", b"ba" * 8), (b"*ab", b"aab"), (b"*aab", b"aaab"), (b"a*a*a", b"aaa"), (b"a*a*a", b"aa"),
+]
+
+
+class Wild(Suite):
+    name = "dowild"
+    go_cmd = "c49"
+    coq_imports = "From GoGit Require Import Model.Gitignore Spec.GitIgnore."
+    quick_n = 400
+    thorough_n = 8000
+    coq_chunk = 150
+
+    def gen(self, rng, n, tier):
+        cases = [{"bucket": "fixed", "op": "dowild", "p": p.hex(), "t": t.hex(), "flags": 0} for p, t in WILD_FIXED]
+        while len(cases) < n:
+            b = pick_weighted(rng, [(4, "fragment"), (2, "glob_of"), (2, "alphabet"), (1, "stars")])
+            if b == "fragment":
+                p = gen_glob_fragment(rng)
+                t = gen_text_for(rng, p)
+            elif b == "glob_of":
+                p = glob_of(rng, rname(rng))
+                t = gen_text_for(rng, p) if rng.random() < 0.7 else rname(rng)
+            elif b == "alphabet":
+                p = bytes(rng.choice(WALPHA) for _ in range(rng.randrange(0, 7)))
+                t = bytes(rng.choice(b"ab!-^c.:]*") for _ in range(rng.randrange(0, 5)))
+            else:
+                k = rng.randrange(2, 6)
+                p = b"*".join(bytes([rng.choice(b"ab")]) for _ in range(k))
+                p = rng.choice([b"", b"*"]) + p + rng.choice([b"", b"*"])
+                t = bytes(rng.choice(b"ab") for _ in range(rng.randrange(0, 14)))
+            cases.append({"bucket": b, "op": "dowild", "p": p.hex(), "t": t.hex(), "flags": 0})
+        return cases
+
+    def model_expr(self, c):
+        return 'c49_dowild "%s" "%s" %d%%N' % (c["p"], c["t"], c["flags"])
+
+    def nontrivial(self, c):
+        return any(ch in b"*?[\\" for ch in bytes.fromhex(c["p"]))
+
+    @staticmethod
+    def git_safe(p, t):
+        """(p, t) can be put to git as a one-line .gitignore and a file name without the line reader interfering"""
+        if not p or not t or b"/" in p or b"/" in t or t in (b".", b"..", b".git", b".gitignore"):
+            return False
+        if any(x in p for x in b"\0\n\r") or any(x in t for x in b"\0\n\r"):
+            return False
+        if p[:1] in (b"#", b"!") or p.startswith(BOM) or p[-1:] in (b" ", b"\t") or p.strip() == b"":
+            return False
+        if len(t) > 200 or t.lower() == b".gitignore":
+            return False
+        return True
+
+    def git_batch(self, ctx, cases):
+        """{id: ignored?} for the git-safe cases: each pair in its own sub-directory of one scratch repository"""
+        if hasattr(ctx, "c49_wild") and ctx.c49_wild[0] is cases:
+            return ctx.c49_wild[1]
+        tpl = getattr(ctx, "c49_tpl", None)
+        if tpl is None:
+            tpl = ctx.c49_tpl = make_template(ctx.tmp)
+        d = os.path.join(ctx.tmp, "wild%d" % id(cases)).encode()
+        shutil.copytree(os.path.join(tpl, ".git"), os.path.join(d.decode(), ".git"))
+        ids, inp = [], b""
+        for c in cases:
+            p, t = bytes.fromhex(c["p"]), bytes.fromhex(c["t"])
+            if not self.git_safe(p, t):
+                continue
+            sub = os.path.join(d, b"d%d" % c["id"])
+            os.makedirs(sub)
+            with open(os.path.join(sub, b".gitignore"), "wb") as f:
+                f.write(p + b"\n")
+            open(os.path.join(sub, t), "wb").close()
+            ids.append(c["id"])
+            inp += b"d%d/" % c["id"] + t + b"\0"
+        res = {}
+        if ids:
+            env = dict(GITENV, HOME=ctx.tmp, XDG_CONFIG_HOME=os.path.join(ctx.tmp, "xdg"))
+            pr = subprocess.run(["/usr/bin/git", "check-ignore", "--no-index", "-v", "-n", "-z", "--stdin"], input=inp, cwd=d,
+                                stdout=subprocess.PIPE, stderr=subprocess.PIPE, env=env, timeout=300)
+            fields = pr.stdout.split(b"\0")[:-1]
+            if len(fields) == 4 * len(ids):
+                for k, i in enumerate(ids):
+                    src, ln, pat, path = fields[4 * k:4 * k + 4]
+                    res[i] = bool(src) and not pat.startswith(b"!")
+        shutil.rmtree(d, ignore_errors=True)
+        ctx.c49_wild = (cases, res)
+        return res
+
+    def oracle(self, ctx, cases, impl, model):
+        """wildmatch(p, t) on the implementation == git ignoring a file named t under the one-line ignore file p"""
+        git = self.git_batch(ctx, cases)
+        fails = {}
+        for c in cases:
+            r = impl.get(c["id"])
+            if c["id"] not in git or r is None:
+                continue
+            im = r["out"] == "( ok match )"
+            if im != git[c["id"]]:
+                same = model.get(c["id"]) == r["out"]
+                fails[c["id"]] = "pattern %r text %r: dowild=%s, git ignored=%s%s" % (
+                    bytes.fromhex(c["p"]), bytes.fromhex(c["t"]), r["out"], git[c["id"]], "" if same else " (implementation departs from the model)")
+        return fails
+
+    def extra(self, ctx, cases, impl, model):
+        git = self.git_batch(ctx, cases)
+        sub = [c for c in cases if c["id"] in git][:250 if ctx.tier == "quick" else 3000]
+        outs = ctx.coq_eval(self.coq_imports, ['c49_git_wild "%s" "%s"' % (c["p"], c["t"]) for c in sub])
+        bad = 0
+        for c, o in zip(sub, outs):
+            if o != ("true" if git[c["id"]] else "false"):
+                bad += 1
+                if bad <= 5:
+                    ctx.notes.append("spec_mismatch match_basename vs git on %r %r: S=%s git=%s" % (bytes.fromhex(c["p"]), bytes.fromhex(c["t"]), o, git[c["id"]]))
+        # dead-code parity (not an alarm): the WM_PATHNAME / WM_CASEFOLD branches of the port against the model
+        rng = __import__("random").Random(ctx.seed + 1)
+        dc = []
+        for i in range(80 if ctx.tier == "quick" else 600):
+            p = rng.choice([b"**/", b"*/", b"a/**/b", b"a*/b", b"A[a-c]*", b"**", b"a/**", b"*?/", b"[!a]/b", b"a\\/b"]) + bytes(rng.choice(b"abA*/?") for _ in range(rng.randrange(0, 4)))
+            t = bytes(rng.choice(b"abA/") for _ in range(rng.randrange(0, 7)))
+            dc.append({"id": i, "op": "dowild", "p": p.hex(), "t": t.hex(), "flags": rng.choice([1, 2, 3, 2])})
+        from vf.core import run_impl
+        di = run_impl("c49", dc)
+        do = ctx.coq_eval(self.coq_imports, ['c49_dowild "%s" "%s" %d%%N' % (c["p"], c["t"], c["flags"]) for c in dc])
+        dead = sum(1 for c, o in zip(dc, do) if (di.get(c["id"]) or {}).get("out") != o)
+        if dead:
+            ctx.notes.append("dead-code parity: %d of %d pathname/casefold dowild cases differ between port and model (unused by gitignore)" % (dead, len(dc)))
+        return {"spec_vs_git_pairs": len(sub), "spec_mismatches": bad, "deadcode_parity_cases": len(dc), "deadcode_parity_diffs": dead}
+
+
+# ---------------------------------------------------------------- ParsePattern / pattern.Match suite (tie only)
+
+class Pat(Suite):
+    name = "pattern"
+    go_cmd = "c49"
+    coq_imports = "From GoGit Require Import Model.Gitignore."
+    quick_n = 300
+    thorough_n = 6000
+    coq_chunk = 150
+
+    def gen(self, rng, n, tier):
+        cases = []
+        for l in SPECIAL_LINES + [b"a\\ ", b"a\\  ", b"a\\\\ ", b"a  ", b"!a/ ", b"a/b/", b"/a", b"a//b", b"!!a", b" ", b"\\ ", b"a/\\ "]:
+            cases.append({"bucket": "parse-fixed", "op": "parse", "line": l.hex(), "domain": []})
+        while len(cases) < n:
+            tree = gen_tree(rng, tier)
+            if not tree:
+                continue
+            path = rng.choice(sorted(tree))
+            k = rng.randrange(0, len(path))
+            dom = path[:k] if rng.random() < 0.8 else tuple(rname(rng) for _ in range(rng.randrange(0, 3)))
+            line = gen_pattern(rng, tree, dom) if rng.random() < 0.9 else rng.choice(SPECIAL_LINES)
+            if rng.random() < 0.3:
+                cases.append({"bucket": "parse", "op": "parse", "line": line.hex(), "domain": [x.hex() for x in dom]})
+            else:
+                cases.append({"bucket": "pmatch", "op": "pmatch", "line": line.hex(), "domain": [x.hex() for x in dom],
+                              "path": [x.hex() for x in path], "isdir": bool(tree[path]) if rng.random() < 0.8 else rng.random() < 0.5})
+        return cases
+
+    def model_expr(self, c):
+        dom = coq_list(['"%s"' % x for x in c["domain"]])
+        if c["op"] == "parse":
+            return 'c49_parse "%s" %s' % (c["line"], dom)
+        return 'c49_pmatch "%s" %s %s %s' % (c["line"], dom, coq_list(['"%s"' % x for x in c["path"]]), coq_bool(c["isdir"]))
+
+
+SUITES = [Ignore(), Wild(), Pat()]
